@@ -1880,7 +1880,8 @@ func (r stack) defaultAssertionHandler(x any) (str string) {
 			// Handle NOTs a little differently
 			// when nested and when not using
 			// symbol operators ...
-			ik = foldValue(Xs.positive(cfold), ik)
+			// ik already honors the inner
+			// stack's case-folding bit
 			str = ik + ` ` + Xs.String()
 		} else {
 			str = Xs.String()
